@@ -471,8 +471,14 @@ def deliver_and_check(cfg, role, seq, seed, cuts, expect, stream_check, dnc_stre
         stream = stream_check
         pair = _RecvOnly(cfg, "server" if role == "client" else "client")
         dst = pair.conn
+    from mc import worker as _w
+    queued = bool(cuts) and _w.ENV.get("fw") == "aio" and (len(cuts) % 2 == 1)
     for seg in cut(stream, cuts):
-        dst.feed(seg)
+        if queued:
+            # asyncio: several reads handed to data_received() before the adapter's consumer runs
+            dst.feed(seg, False)
+        else:
+            dst.feed(seg)
     dst.settle()
     got = [(e[1], e[2]) for e in dst.proto.rec if e[0] == "onMessage"]
     problems = []
